@@ -1491,3 +1491,280 @@ Proof.
   intros Hl Hft Hok Hns. unfold run_script. rewrite Hl. cbn [Base.bind].
   exact (proj1 (exec_vs_sem (sl_funcs ls) Hft DEPTH toks false (cfg_after_lex ls) (wf_after_lex ls) Hok Hns)).
 Qed.
+
+(* ---- an empty frame changes nothing: arguments are evaluated in the caller's frames ---- *)
+Section EmptyFrame.
+  Variables Name Atom Op Val World Bnd FId Err : Type.
+  Variable L : lang Name Atom Op Val World Bnd FId Err.
+  Variable funs : FId -> option (fundef Name Atom Op Val FId).
+
+  Notation gcfg := (cfg Name World Bnd).
+  Notation gstmt := (stmt Name Atom Op FId).
+  Notation gexpr := (expr Name Op).
+  Notation gres := (result Err).
+  Notation gframe := (frame Name Bnd).
+
+  (* e' is e with one empty frame inserted somewhere / somewhere below the innermost frame *)
+  Inductive ins : list gframe -> list gframe -> Prop :=
+  | ins_here : forall e, ins e ([] :: e)
+  | ins_cons : forall fr e e', ins e e' -> ins (fr :: e) (fr :: e').
+  Definition below (e e' : list gframe) : Prop := exists fr e0 e0', e = fr :: e0 /\ e' = fr :: e0' /\ ins e0 e0'.
+
+  Lemma below_ins e e' : below e e' -> ins e e'.
+  Proof. intros (fr & e0 & e0' & -> & -> & H). apply ins_cons. exact H. Qed.
+  Lemma lookup_ins x e e' : ins e e' -> lookup L x e' = lookup L x e.
+  Proof. induction 1 as [e|fr e e' H IH]; [reflexivity|]. cbn [lookup]. rewrite IH. reflexivity. Qed.
+  Lemma below_bind x b e e' : below e e' -> below (bind x b e) (bind x b e').
+  Proof. intros (fr & e0 & e0' & -> & -> & H). exists ((x, b) :: fr), e0, e0'. repeat split. exact H. Qed.
+  Lemma below_bind_params ps : forall i vs e e', below e e' -> below (ScriptSem.bind_params L ps i vs e) (ScriptSem.bind_params L ps i vs e').
+  Proof. induction ps as [|[x d] r IH]; intros i vs e e' H; [exact H|]. cbn [ScriptSem.bind_params]. apply IH, below_bind, H. Qed.
+  Lemma below_push e e' : ins e e' -> below ([] :: e) ([] :: e').
+  Proof. intros H. exists [], e, e'. repeat split. exact H. Qed.
+
+  (* results related case by case *)
+  Definition rrel {A} (R : A -> A -> Prop) (r r' : gres A) : Prop :=
+    match r, r' with
+    | Fin a, Fin a' => R a a'
+    | Fail e, Fail e' => e = e'
+    | Stuck, Stuck => True
+    | NoFuel, NoFuel => True
+    | _, _ => False
+    end.
+  Lemma rrel_bind {A B} (R : A -> A -> Prop) (S : B -> B -> Prop) r r' (k k' : A -> gres B) :
+    rrel R r r' -> (forall a a', R a a' -> rrel S (k a) (k' a')) -> rrel S (rbind r k) (rbind r' k').
+  Proof. destruct r, r'; cbn [rrel rbind]; intros H HK; try contradiction; try exact H; try exact I. apply HK, H. Qed.
+  Lemma rrel_strengthen {A} (R : A -> A -> Prop) (P P' : A -> Prop) r r' :
+    rrel R r r' -> (forall a, r = Fin a -> P a) -> (forall a, r' = Fin a -> P' a) ->
+    rrel (fun a a' => R a a' /\ P a /\ P' a') r r'.
+  Proof. destruct r, r'; cbn [rrel]; intros H H1 H2; try contradiction; try exact H. repeat split; [exact H | apply H1; reflexivity | apply H2; reflexivity]. Qed.
+  Lemma rrel_weaken {A} (R S : A -> A -> Prop) r r' : (forall a a', R a a' -> S a a') -> rrel R r r' -> rrel S r r'.
+  Proof. destruct r, r'; cbn [rrel]; intros H H1; try contradiction; try exact H1. apply H, H1. Qed.
+  Lemma rrel_refl_eq {A} (r : gres A) : rrel eq r r.
+  Proof. destruct r; cbn [rrel]; auto. Qed.
+
+  (* configurations: same world, frames related *)
+  Definition crel (Q : list gframe -> list gframe -> Prop) (c c' : gcfg) : Prop := world c = world c' /\ Q (env c) (env c').
+  (* results of expressions: same value, same world, frames as at the start *)
+  Definition erel {A} (c c' : gcfg) (p p' : A * gcfg) : Prop :=
+    fst p = fst p' /\ world (snd p) = world (snd p') /\ env (snd p) = env c /\ env (snd p') = env c'.
+  Definition srel (p p' : signal * gcfg) : Prop := fst p = fst p' /\ crel below (snd p) (snd p').
+
+  Section Level.
+    Variable blk : list gstmt -> gcfg -> gres (signal * gcfg).
+    Hypothesis HT : forall b c sg c', blk b c = Fin (sg, c') -> tl (env c') = tl (env c).
+    Hypothesis HBk : forall b c c', crel below c c' -> rrel srel (blk b c) (blk b c').
+
+    Lemma call_body_ins fd vs c c' :
+      crel below c c' ->
+      rrel (fun p p' => fst p = fst p' /\ world (snd p) = world (snd p') /\ env (snd p) = tl (env c) /\ env (snd p') = tl (env c'))
+           (call_body L blk fd vs c) (call_body L blk fd vs c').
+    Proof.
+      intros [Hw Hb].
+      assert (H0 : rrel (fun p p' => fst p = fst p' /\ world (snd p) = world (snd p')) (call_body L blk fd vs c) (call_body L blk fd vs c')).
+      { unfold call_body. eapply rrel_bind.
+        - apply HBk. split; [exact Hw|]. cbn [env set_env]. apply below_bind_params, Hb.
+        - intros [sg c2] [sg' c2'] [_ [Hw2 (fr & e0 & e0' & E1 & E2 & Hi)]]. cbn [fst snd] in *. rewrite E1, E2.
+          destruct (lookup_frame L (l_result_name L) fr) as [b|].
+          + destruct (l_view_of L b); cbn [rrel]; auto.
+          + cbn [rrel]. auto. }
+      eapply rrel_weaken; [|apply (rrel_strengthen _ (fun p => env (snd p) = tl (env c)) (fun p => env (snd p) = tl (env c')) _ _ H0)].
+      - intros p p' [[H1 H2] [H3 H4]]. auto.
+      - intros [v c2] E. exact (call_body_env _ _ _ _ _ _ _ _ L blk HT fd vs c v c2 E).
+      - intros [v c2] E. exact (call_body_env _ _ _ _ _ _ _ _ L blk HT fd vs c' v c2 E).
+    Qed.
+
+    Lemma evals_ins (f : gexpr -> gcfg -> gres (Val * gcfg)) l :
+      Forall (fun x => forall c c', crel ins c c' -> rrel (erel c c') (f x c) (f x c')) l ->
+      forall c c', crel ins c c' -> rrel (erel c c') (evals_with f l c) (evals_with f l c').
+    Proof.
+      induction 1 as [|x r Hx Hr IH]; intros c c' Hc.
+      - cbn [evals_with rrel]. destruct Hc as [Hw _]. repeat split; auto.
+      - change (evals_with f (x :: r) c) with (rbind (f x c) (fun p => rbind (evals_with f r (snd p)) (fun q => Fin (fst p :: fst q, snd q)))).
+        change (evals_with f (x :: r) c') with (rbind (f x c') (fun p => rbind (evals_with f r (snd p)) (fun q => Fin (fst p :: fst q, snd q)))).
+        eapply rrel_bind; [apply Hx, Hc|].
+        intros [v c1] [v' c1'] (Ev & Hw1 & E1 & E1'). cbn [fst snd] in *.
+        eapply rrel_bind; [apply (IH c1 c1'); split; [exact Hw1 | rewrite E1, E1'; apply Hc]|].
+        intros [vs c2] [vs' c2'] (Evs & Hw2 & E2 & E2'). cbn [fst snd rrel] in *.
+        repeat split; cbn [fst snd]; [rewrite Ev, Evs; reflexivity | exact Hw2 | rewrite E2, E1; reflexivity | rewrite E2', E1'; reflexivity].
+    Qed.
+
+    Lemma eval_ins : forall e c c', crel ins c c' -> rrel (erel c c') (eval L funs blk e c) (eval L funs blk e c').
+    Proof.
+      apply (gexpr_ind' Name Op (fun e => forall c c', crel ins c c' -> rrel (erel c c') (eval L funs blk e c) (eval L funs blk e c'))).
+      - intros o args Hargs c c' Hc. cbn [eval]. eapply rrel_bind; [apply evals_ins; [exact Hargs | exact Hc]|].
+        intros [vs c1] [vs' c1'] (Ev & Hw1 & E1 & E1'). cbn [fst snd] in *. subst vs'.
+        assert (Es : shadowed L o (env c1') = shadowed L o (env c1)).
+        { unfold shadowed. destruct (l_op_name L o); [|reflexivity]. rewrite E1, E1', (lookup_ins _ _ _ (proj2 Hc)). reflexivity. }
+        rewrite Es. destruct (shadowed L o (env c1)); [exact I|].
+        destruct (l_op_sem L o vs); cbn [rbind rrel]; auto. repeat split; auto.
+      - intros x c c' [Hw Hi]. cbn [eval]. rewrite (lookup_ins x _ _ Hi).
+        destruct (lookup L x (env c)) as [b|].
+        + destruct (l_view_of L b); cbn [rrel]; auto. repeat split; auto.
+        + destruct (l_unbound L x); cbn [rbind rrel]; auto. repeat split; auto.
+      - intros f args Hargs c c' [Hw Hi]. cbn [eval]. rewrite (lookup_ins f _ _ Hi).
+        destruct (lookup L f (env c)) as [b|]; [|exact I]. destruct (l_view_of L b) as [|id|]; try exact I.
+        destruct (funs id) as [fd|]; [|exact I].
+        eapply rrel_bind.
+        + apply (evals_ins _ args Hargs (push_frame c) (push_frame c')). split; [exact Hw|]. cbn [env push_frame set_env]. apply ins_cons, Hi.
+        + intros [vs c1] [vs' c1'] (Ev & Hw1 & E1 & E1'). cbn [fst snd] in *. subst vs'.
+          eapply rrel_weaken; [|apply (call_body_ins fd vs c1 c1')].
+          * intros p p' (H1 & H2 & H3 & H4). unfold erel. rewrite H3, H4, E1, E1'. cbn [env push_frame set_env tl]. auto.
+          * split; [exact Hw1|]. rewrite E1, E1'. cbn [env push_frame set_env]. apply below_push, Hi.
+    Qed.
+
+    Lemma eval_opt_ins d e c c' : crel ins c c' -> rrel (erel c c') (eval_opt L funs blk d e c) (eval_opt L funs blk d e c').
+    Proof. intros Hc. destruct e; cbn [eval_opt]; [apply eval_ins, Hc|]. cbn [rrel]. destruct Hc. repeat split; auto. Qed.
+    Lemma eval_args_ins l : forall c c', crel ins c c' -> rrel (erel c c') (eval_args L funs blk l c) (eval_args L funs blk l c').
+    Proof.
+      induction l as [|a r IH]; intros c c' Hc; cbn [eval_args].
+      - cbn [rrel]. destruct Hc. repeat split; auto.
+      - eapply rrel_bind; [apply eval_opt_ins, Hc|].
+        intros [v c1] [v' c1'] (Ev & Hw1 & E1 & E1'). cbn [fst snd] in *.
+        eapply rrel_bind; [apply (IH c1 c1'); split; [exact Hw1 | rewrite E1, E1'; apply Hc]|].
+        intros [vs c2] [vs' c2'] (Evs & Hw2 & E2 & E2'). cbn [fst snd rrel] in *.
+        repeat split; cbn [fst snd]; [rewrite Ev, Evs; reflexivity | exact Hw2 | rewrite E2, E1; reflexivity | rewrite E2', E1'; reflexivity].
+    Qed.
+
+    (* from an expression result back to related configurations *)
+    Lemma erel_below {A} c c' (p p' : A * gcfg) : crel below c c' -> erel c c' p p' -> crel below (snd p) (snd p').
+    Proof. intros [_ Hb] (_ & Hw & E & E'). split; [exact Hw | rewrite E, E'; exact Hb]. Qed.
+    Lemma crel_below_ins c c' : crel below c c' -> crel ins c c'.
+    Proof. intros [Hw Hb]. split; [exact Hw | apply below_ins, Hb]. Qed.
+    Lemma crel_bind_val x v c c' : crel below c c' -> crel below (bind_val L x v c) (bind_val L x v c').
+    Proof. intros [Hw Hb]. split; [exact Hw | apply below_bind, Hb]. Qed.
+    Lemma crel_set_world c c' (g : World -> World) : crel below c c' -> crel below (set_world c (g (world c))) (set_world c' (g (world c'))).
+    Proof. intros [Hw Hb]. split; [cbn [world set_world]; rewrite Hw; reflexivity | exact Hb]. Qed.
+
+    Lemma while_ins left cnd body line : forall c c', crel below c c' ->
+      rrel srel (while_sem L funs blk left cnd body line c) (while_sem L funs blk left cnd body line c').
+    Proof.
+      induction left as [|left IH]; intros c c' Hc; cbn [while_sem];
+        (eapply rrel_bind; [apply eval_opt_ins, crel_below_ins, Hc|];
+         intros p p' Hp; pose proof (erel_below _ _ _ _ Hc Hp) as Hc1; destruct Hp as (Ev & _); rewrite <- Ev;
+         destruct (negb (l_truth L (fst p))); [split; [reflexivity | exact Hc1]|];
+         eapply rrel_bind; [apply HBk, Hc1|]; intros r r' [Es Hc2]; rewrite <- Es).
+      - unfold cut_off. split; [reflexivity|]. cbn [fst snd]. apply (crel_set_world _ _ (l_limit_note L false line)), Hc2.
+      - destruct (fst r); try (split; [reflexivity | exact Hc2]); apply IH, Hc2.
+    Qed.
+
+    Lemma for_ins left cnd inc body line : forall c c', crel below c c' ->
+      rrel srel (for_sem L funs blk left cnd inc body line c) (for_sem L funs blk left cnd inc body line c').
+    Proof.
+      induction left as [|left IH]; intros c c' Hc; cbn [for_sem];
+        (eapply rrel_bind; [apply eval_opt_ins, crel_below_ins, Hc|];
+         intros p p' Hp; pose proof (erel_below _ _ _ _ Hc Hp) as Hc1; destruct Hp as (Ev & _); rewrite <- Ev;
+         destruct (negb (l_truth L (fst p))); [split; [reflexivity | exact Hc1]|];
+         eapply rrel_bind; [apply HBk, Hc1|]; intros r r' [Es Hc2]; rewrite <- Es).
+      - unfold cut_off. split; [reflexivity|]. cbn [fst snd]. apply (crel_set_world _ _ (l_limit_note L true line)), Hc2.
+      - destruct (fst r); try (split; [reflexivity | exact Hc2]);
+          (eapply rrel_bind; [apply HBk, Hc2|]; intros r2 r2' [Es2 Hc3]; rewrite <- Es2;
+           destruct (fst r2); try (split; [reflexivity | exact Hc3]); apply IH, Hc3).
+    Qed.
+
+    Lemma exec_stmt_ins s c c' : crel below c c' -> rrel srel (exec_stmt L funs blk s c) (exec_stmt L funs blk s c').
+    Proof.
+      intros Hc. pose proof (crel_below_ins _ _ Hc) as Hi. destruct s; cbn [exec_stmt].
+      - destruct Hc as [Hw Hb]. rewrite <- Hw. destruct (l_atom_sem L a (world c)); cbn [rbind rrel]; auto.
+        split; [reflexivity | split; [reflexivity | exact Hb]].
+      - eapply rrel_bind; [apply eval_args_ins, Hi|]. intros p p' Hp. pose proof (erel_below _ _ _ _ Hc Hp) as Hc1.
+        destruct Hp as (Ev & _). rewrite <- Ev. split; [reflexivity|]. cbn [fst snd]. apply (crel_set_world _ _ (l_print_out L line (fst p))), Hc1.
+      - eapply rrel_bind; [apply eval_opt_ins, Hi|]. intros p p' Hp. pose proof (erel_below _ _ _ _ Hc Hp) as Hc1.
+        destruct Hp as (Ev & _). rewrite <- Ev. split; [reflexivity|]. cbn [fst snd].
+        apply crel_bind_val. apply (crel_set_world _ _ (l_decl_note L kind x (fst p))), Hc1.
+      - eapply rrel_bind; [apply eval_opt_ins, Hi|]. intros p p' Hp. pose proof (erel_below _ _ _ _ Hc Hp) as Hc1.
+        destruct Hp as (Ev & _). rewrite <- Ev. split; [reflexivity|]. cbn [fst snd]. apply crel_bind_val, Hc1.
+      - rewrite (lookup_ins x _ _ (proj2 Hi)). destruct (lookup L x (env c)) as [b|].
+        + destruct (l_view_of L b); cbn [rrel]; auto. split; [reflexivity | apply crel_bind_val, Hc].
+        + split; [reflexivity | apply crel_bind_val, Hc].
+      - eapply rrel_bind; [apply eval_opt_ins, Hi|]. intros p p' Hp. pose proof (erel_below _ _ _ _ Hc Hp) as Hc1.
+        destruct Hp as (Ev & _). rewrite <- Ev. apply HBk, Hc1.
+      - apply while_ins, Hc.
+      - eapply rrel_bind; [apply HBk, Hc|]. intros r r' [Es Hc2]. rewrite <- Es.
+        destruct (fst r); try (split; [reflexivity | exact Hc2]). apply for_ins, Hc2.
+      - split; [reflexivity | exact Hc].
+      - split; [reflexivity | exact Hc].
+      - destruct e as [e|]; [|split; [reflexivity | exact Hc]].
+        eapply rrel_bind; [apply (eval_opt_ins (l_vzero L) (Some e)), Hi|]. intros p p' Hp. pose proof (erel_below _ _ _ _ Hc Hp) as Hc1.
+        destruct Hp as (Ev & _). rewrite <- Ev. split; [reflexivity|]. cbn [fst snd]. apply crel_bind_val, Hc1.
+      - destruct (funs f) as [fd|]; [|exact I].
+        assert (Hp0 : crel ins (push_frame c) (push_frame c')).
+        { destruct Hi as [Hw Hi]. split; [exact Hw | cbn [env push_frame set_env]; apply ins_cons, Hi]. }
+        eapply rrel_bind; [apply eval_args_ins, Hp0|].
+        intros [vs c1] [vs' c1'] (Ev & Hw1 & E1 & E1'). cbn [fst snd] in *. subst vs'.
+        eapply rrel_bind; [apply (call_body_ins fd vs c1 c1')|].
+        + split; [exact Hw1|]. rewrite E1, E1'. cbn [env push_frame set_env]. apply below_push, Hi.
+        + intros [v c2] [v' c2'] (_ & Hw2 & E2 & E2'). cbn [fst snd rrel] in *. split; [reflexivity|]. split; [exact Hw2|].
+          cbn [snd]. rewrite E2, E2', E1, E1'. cbn [env push_frame set_env tl]. apply Hc.
+    Qed.
+
+    Lemma exec_seq_ins b : forall c c', crel below c c' -> rrel srel (exec_seq L funs blk b c) (exec_seq L funs blk b c').
+    Proof.
+      induction b as [|s r IH]; intros c c' Hc; cbn [exec_seq].
+      - split; [reflexivity | exact Hc].
+      - eapply rrel_bind; [apply exec_stmt_ins, Hc|]. intros p p' [Es Hc1]. rewrite <- Es.
+        destruct (fst p); try (split; [reflexivity | exact Hc1]). apply IH, Hc1.
+    Qed.
+  End Level.
+
+  Theorem sem_ins : forall n b c c', crel below c c' -> rrel srel (sem L funs n b c) (sem L funs n b c').
+  Proof.
+    induction n as [|n IH]; intros b c c' Hc; [exact I|].
+    exact (exec_seq_ins (sem L funs n) (sem_tail _ _ _ _ _ _ _ _ L funs n) IH b c c' Hc).
+  Qed.
+
+  Definition gmap {A B} (f : A -> B) (r : gres A) : gres B :=
+    match r with Fin a => Fin (f a) | Fail e => Fail e | Stuck => Stuck | NoFuel => NoFuel end.
+
+  Lemma erel_push_eq {A} (c : gcfg) (r r' : gres (A * gcfg)) :
+    rrel (erel c (push_frame c)) r r' -> r' = gmap (fun p => (fst p, push_frame (snd p))) r.
+  Proof.
+    destruct r as [[a c1]| | |], r' as [[a' c1']| | |]; cbn [rrel gmap]; intros H; try contradiction; try reflexivity; try (rewrite H; reflexivity).
+    destruct H as (Ea & Hw & E1 & E1'). cbn [fst snd] in *. subst a'. f_equal. f_equal.
+    destruct c1 as [w1 e1], c1' as [w1' e1']. cbn [world env push_frame set_env] in *. subst. reflexivity.
+  Qed.
+
+  (* the arguments of a call are evaluated in the CALLER's frames: evaluating them under the callee's fresh (still empty) frame
+     gives, argument by argument, the values and effects they have in the caller's configuration - for any expressions, nested
+     calls included.  (All of them are evaluated before the first parameter is bound: see eval / exec_stmt CallS.) *)
+  Theorem args_in_caller_frames n args c :
+    evals_with (eval L funs (sem L funs n)) args (push_frame c)
+    = gmap (fun p => (fst p, push_frame (snd p))) (evals_with (eval L funs (sem L funs n)) args c).
+  Proof.
+    apply (erel_push_eq c). apply evals_ins.
+    - apply Forall_forall. intros x _ c0 c0' H0.
+      exact (eval_ins (sem L funs n) (sem_tail _ _ _ _ _ _ _ _ L funs n) (sem_ins n) x c0 c0' H0).
+    - split; [reflexivity | apply ins_here].
+  Qed.
+  Theorem stmt_args_in_caller_frames n args c :
+    eval_args L funs (sem L funs n) args (push_frame c)
+    = gmap (fun p => (fst p, push_frame (snd p))) (eval_args L funs (sem L funs n) args c).
+  Proof.
+    apply (erel_push_eq c). apply (eval_args_ins (sem L funs n) (sem_tail _ _ _ _ _ _ _ _ L funs n) (sem_ins n)).
+    split; [reflexivity | apply ins_here].
+  Qed.
+End EmptyFrame.
+
+Section CallValues.
+  Variables Name Atom Op Val World Bnd FId Err : Type.
+  Variable L : lang Name Atom Op Val World Bnd FId Err.
+  Variable funs : FId -> option (fundef Name Atom Op Val FId).
+
+  (* a call binds its parameters to the values the argument expressions have in the caller's configuration (evaluated left to
+     right, each in the configuration left by the previous one), whatever the names of the parameters *)
+  Theorem call_in_caller_scope n f args (c : cfg Name World Bnd) b id fd vs c1 :
+    lookup L f (env c) = Some b -> l_view_of L b = BFun id -> funs id = Some fd ->
+    evals_with (eval L funs (sem L funs n)) args c = Fin (vs, c1) ->
+    eval L funs (sem L funs n) (ECall f args) c = call_body L (sem L funs n) fd vs (push_frame c1).
+  Proof.
+    intros H1 H2 H3 H4. apply (call_named _ _ _ _ _ _ _ _ L funs (sem L funs n) f args c b id fd vs (push_frame c1) H1 H2 H3).
+    rewrite (args_in_caller_frames _ _ _ _ _ _ _ _ L funs n args c), H4. reflexivity.
+  Qed.
+  Theorem statement_call_in_caller_scope n id args (c : cfg Name World Bnd) fd vs c1 :
+    funs id = Some fd -> eval_args L funs (sem L funs n) args c = Fin (vs, c1) ->
+    exec_stmt L funs (sem L funs n) (CallS id args) c
+    = rbind (call_body L (sem L funs n) fd vs (push_frame c1)) (fun q => Fin (Normal, snd q)).
+  Proof.
+    intros H1 H2. apply (statement_call _ _ _ _ _ _ _ _ L funs (sem L funs n) id args c fd vs (push_frame c1) H1).
+    rewrite (stmt_args_in_caller_frames _ _ _ _ _ _ _ _ L funs n args c), H2. reflexivity.
+  Qed.
+End CallValues.
